@@ -78,4 +78,6 @@ def main(tier):
     bounds.check(rep, {'ec_dot_prod'}, 'EC', 33)
     import gfrows
     gfrows.check_dot(rep, 33)
+    import baseloops
+    baseloops.check(rep, 'EC', ['ec_encode_data_base', 'gf_vect_dot_prod_base', 'ec_init_tables_base'], 5)
     return rep.finish()
